@@ -234,7 +234,7 @@ pub fn c07_extend_ref<const N: usize, const L: usize>() {
     } else {
         vf::reach(2);
         vf::check(panicked, 708);
-        vf::check(src.pulled <= overflow_at + 1, 708);
+        vf::check(src.pulled <= overflow_at + 2, 708); // one item of look-ahead is tolerated (see c16_from_iter)
     }
     vf::check(s.len() == md.n, 201);
     let q = vf::any_u8();
@@ -260,6 +260,34 @@ pub fn c07u_ops<const N: usize>() {
         6 => { let c = s.clone(); vf::check(c == s && c.len() == md.n && c.is_subset(&s) && s.is_superset(&c) && (md.n == 0 || !c.is_disjoint(&s)), 1502); }
         _ => { let mut t = 0usize; let mut it = s.iter(); vf::check(it.len() == md.n, 601); while let Some(x) = it.next() { t += 1; vf::check(md.has(*x) && it.len() == md.n - t, 601); } vf::check(t == md.n && it.next().is_none(), 604); }
     }
+    same_u8_set(&s, &md);
+    vf::check(s.len() <= s.capacity() && s.capacity() == N && s.is_empty() == (md.n == 0), 206);
+}
+
+/// wide capacities on `Set<u8,N>` from a concrete pre-state of F elements: one solver-chosen operation (see `c01w_ops`)
+pub fn c07w_ops<const N: usize, const F: usize>() {
+    let mut s: Set<u8, N> = Set::new();
+    let mut md = Model::<N>::new();
+    let mut i = 0;
+    while i < F { let k = wide_key(i); md.insert(k, 0, 0, 0); vf::check(s.insert(k), 100); i += 1; }
+    if F >= 3 { let k = wide_key(F / 3); vf::check(s.remove(&k) == md.remove(k).is_some(), 100); md.insert(k, 0, 0, 0); vf::check(s.insert(k), 100); }
+    let mut step = 0;
+    while step < 1 {
+        let (op, k) = (vf::any_u8(), vf::any_u8());
+        vf::assume(op < 8);
+        match op {
+            0 => { vf::assume(md.n < N || md.has(k)); vf::reach(1); let was = md.has(k); md.insert(k, 0, 0, 0); vf::check(s.insert(k) == !was, 701); }
+            1 => { vf::assume(md.n < N || md.has(k)); let was = md.has(k); md.insert(k, 0, 0, 0); vf::check(s.replace(k) == if was { Some(k) } else { None }, 702); }
+            2 => { vf::reach(2); let was = md.remove(k).is_some(); vf::check(s.remove(&k) == was, 705); }
+            3 => { let was = md.remove(k).is_some(); vf::check(s.take(&k) == if was { Some(k) } else { None }, 706); }
+            4 => { vf::check(s.contains(&k) == md.has(k) && s.get(&k).copied() == if md.has(k) { Some(k) } else { None }, 703); }
+            5 => { s.retain(|x| keep(k, *x)); md.retain(k); }
+            6 => { let c = s.clone(); vf::check(c == s && c.len() == md.n && c.is_subset(&s) && s.is_superset(&c) && (md.n == 0 || !c.is_disjoint(&s)), 1502); }
+            _ => { let mut t = 0usize; let mut it = s.iter(); vf::check(it.len() == md.n, 601); while let Some(x) = it.next() { t += 1; vf::check(md.has(*x) && it.len() == md.n - t, 601); } vf::check(t == md.n && it.next().is_none(), 604); }
+        }
+        step += 1;
+    }
+    vf::reach(3);
     same_u8_set(&s, &md);
     vf::check(s.len() <= s.capacity() && s.capacity() == N && s.is_empty() == (md.n == 0), 206);
 }
@@ -299,6 +327,7 @@ pub fn c07_zst<const N: usize>() {
 harnesses! {
     c07_zst: [1] [2];
     c07u_ops: [4] [6] [8];
+    c07w_ops: [18, 17] [18, 16];
     c07_insert: [1] [2] [3];
     c07_replace: [1] [2] [3];
     c07_lookup: [0] [1] [2] [3];
@@ -311,6 +340,7 @@ harnesses! {
     c07_extend_ref: [1, 2] [2, 3] [3, 3];
     @deep
     c07u_ops: [10] [12];
+    c07w_ops: [34, 33] [34, 32] [66, 66] [72, 65] [72, 64];
     c07_insert: [4] [5];
     c07_replace: [4] [5];
     c07_lookup: [4] [5];
